@@ -659,6 +659,14 @@ def c13(chk):
         chk.count('magnitude disparity + tiny edit on reused objects')
     for q, c2 in reversed(extra):
         cases.insert(q + 1, c2)
+    import optlib as _ol
+    corp = [gen.from_desc(d) for d in _ol.corpus('C13')]      # past failures / false alarms run as well
+    for q, c in enumerate(corp):
+        c.slot = 900 + q
+        if 'col_slot' in c.meta:
+            c.meta['col_slot'] = 40000 + q * 16
+    chk.notes['corpus_cases'] = len(corp)
+    cases = corp + cases
     allc = []
     index = []
     for c in cases:
@@ -719,7 +727,17 @@ def c13(chk):
         tot = [sum(t) for t in zip(*[fvals(o['prop_times']) for o in ones])]
         tot = [x + Fr(g) for x, g in zip(tot, c.gT)]
         x = fvals(a['prop_times'])
-        err = max(abs(p - q) for p, q in zip(x, tot)) / block_scale(tot)
+        scale = block_scale(tot)
+        if 'col_slot' in c.meta:
+            # one coordinate is 2^43 times the others: its contribution to the duration gradient is a sum of products
+            # (adjoint x coefficient) of size |gC| * |coefficients| that cancels analytically (often to exactly 0), so the
+            # result carries rounding noise of that size times 1e-16 whatever the size of the total (DESIGN section 8 (ix))
+            hmin = min(c.h)
+            term = max(block_scale(fvals(o['coeffs'])) * max([Fr(1)] + [abs(Fr(r[0])) for r in o2.gC])
+                       for o, o2 in zip(ones, allc[base + 1: base + 1 + c.d]))
+            scale = max(scale, term * max(Fr(1), 1 / Fr(hmin)) ** 2)
+            chk.count('sum of duration gradients judged on the scale of the largest coordinate (disparity cases)')
+        err = max(abs(p - q) for p, q in zip(x, tot)) / scale
         chk.disc(f'{c.order}/sum_prop_times', err)
         if err > 1e-10:
             chk.violation('propagated duration gradient is not the sum over coordinates', c.describe(), {'scaled_error': float(err)})
